@@ -46,9 +46,12 @@ def np_dtype(columns, rows=()):
     return np.dtype(dt)
 
 
-def scalar_key(kind, v):
+def scalar_key(kind, v, observed=False):
     """Canonical comparable form of one scalar, from either the model encoding or
     a value found in a yanny object (numpy scalar, Python number, str, bytes)."""
+    if observed and kind in YTYPE and isinstance(v, (str, bytes, np.str_, np.bytes_)):
+        # a numeric cell of an object (raw or normal mode) is a number, not its text
+        return 'TEXT:%r' % (v,)
     if kind in INT_RANGE:
         return int(v)
     if kind in ('f4', 'f8'):
@@ -65,10 +68,10 @@ def scalar_key(kind, v):
     return str(v)
 
 
-def cell_key(col, v):
+def cell_key(col, v, observed=False):
     if col.get('len', 0):
-        return [scalar_key(col['kind'], x) for x in v]
-    return scalar_key(col['kind'], v)
+        return [scalar_key(col['kind'], x, observed) for x in v]
+    return scalar_key(col['kind'], v, observed)
 
 
 def to_python(col, v, numpy_scalars=False):
@@ -188,7 +191,7 @@ def observe(obj, model):
                     if len(v) != mc['len']:
                         row.append(['wrong-length'] + [repr(x) for x in v])
                         continue
-                row.append(cell_key(mc, v))
+                row.append(cell_key(mc, v, observed=True))
             rows.append(row)
         tabs.append([name, cols, rows])
     pairs = [[k, obj[k]] for k in obj.pairs()]
